@@ -101,22 +101,44 @@ func (x *Exec) heapRefsAllocated(name, heap, alloc string) {
 	if _, ok := x.vc.heapSort[allocVar]; !ok {
 		x.vc.heapSort[allocVar] = SInt
 	}
-	var elem func(sel string) string
-	switch types.Unalias(et).Underlying().(type) {
-	case *types.Pointer, *types.Map:
-		elem = func(sel string) string { return sel }
-	case *types.Slice:
-		elem = func(sel string) string { return app("s.arr", sel) }
-	default:
+	// the references held by a value of type et (directly, or in the fields of a struct value, two levels deep)
+	var refsOf func(t types.Type, sel string, depth int) []string
+	refsOf = func(t types.Type, sel string, depth int) []string {
+		switch u := types.Unalias(t).Underlying().(type) {
+		case *types.Pointer, *types.Map:
+			return []string{sel}
+		case *types.Slice:
+			return []string{app("s.arr", sel)}
+		case *types.Struct:
+			if depth >= 2 || isTimeTime(t) {
+				return nil
+			}
+			si := x.ss.structInfoOf(t)
+			var out []string
+			for i := 0; i < u.NumFields() && i < len(si.fields); i++ {
+				out = append(out, refsOf(u.Field(i).Type(), app(si.fields[i].acc, sel), depth+1)...)
+			}
+			return out
+		}
+		return nil
+	}
+	var sel, binders string
+	if strings.HasPrefix(name, "HA.") {
+		sel, binders = app("select", app("select", heap, "r"), "j"), "((r Int) (j Int))"
+	} else if strings.HasPrefix(name, "Hf.") || strings.HasPrefix(name, "Hp.") {
+		sel, binders = app("select", heap, "r"), "((r Int))"
+	} else {
 		return
 	}
-	if strings.HasPrefix(name, "HA.") {
-		sel := app("select", app("select", heap, "r"), "j")
-		x.vc.axiom(fmt.Sprintf("(forall ((r Int) (j Int)) (! (< %s %s) :pattern (%s)))", elem(sel), alloc, sel))
-	} else if strings.HasPrefix(name, "Hf.") || strings.HasPrefix(name, "Hp.") {
-		sel := app("select", heap, "r")
-		x.vc.axiom(fmt.Sprintf("(forall ((r Int)) (! (< %s %s) :pattern (%s)))", elem(sel), alloc, sel))
+	refs := refsOf(et, sel, 0)
+	if len(refs) == 0 {
+		return
 	}
+	var bounds []string
+	for _, r := range refs {
+		bounds = append(bounds, app("<", r, alloc))
+	}
+	x.vc.axiom(fmt.Sprintf("(forall %s (! %s :pattern (%s)))", binders, mkAnd(bounds...), sel))
 }
 
 func (x *Exec) get(st *State, name string) Term {
